@@ -94,12 +94,14 @@ class JsonFilePackageResolver(DictBasedPackageResolver):
     """
 
     def __init__(self, edifact_format: EdifactFormat, edifact_format_version: EdifactFormatVersion, file_path: Path):
-        super().__init__(self._open_and_load_package_mappings(file_path))
+        super().__init__(self._open_and_load_package_mappings(file_path, edifact_format))
         self.edifact_format = edifact_format
         self.edifact_format_version = edifact_format_version
 
     @staticmethod
-    def _open_and_load_package_mappings(file_path: Path) -> Dict[str, Optional[str]]:
+    def _open_and_load_package_mappings(
+        file_path: Path, edifact_format: Optional[EdifactFormat] = None
+    ) -> Dict[str, Optional[str]]:
         """
         Opens the hint json file and loads it into an attribute of the class.
         The method can read both a dictionary of package key/package expression mappings and a
@@ -114,7 +116,12 @@ class JsonFilePackageResolver(DictBasedPackageResolver):
         mapping_list: List[PackageKeyConditionExpressionMapping] = PackageKeyConditionExpressionMappingSchema().load(
             json_body, many=True
         )
-        return {mapping.package_key: mapping.package_expression for mapping in mapping_list}
+        # every entry of the list carries its own format: the entries of other formats are not meant for this resolver
+        return {
+            mapping.package_key: mapping.package_expression
+            for mapping in mapping_list
+            if edifact_format is None or mapping.edifact_format == edifact_format
+        }
 
 
 class ContentEvaluationResultBasedPackageResolver(PackageResolver):
@@ -142,13 +149,16 @@ class ContentEvaluationResultBasedPackageResolver(PackageResolver):
             if content_evaluation_result.packages is None:
                 content_evaluation_result.packages = {}
             package_expression = content_evaluation_result.packages[package_key]
+            # the format of the message (the resolver itself may have been created without a format)
             return PackageKeyConditionExpressionMapping(
-                edifact_format=self.edifact_format, package_expression=package_expression, package_key=package_key
+                edifact_format=evaluatable_data.edifact_format,
+                package_expression=package_expression,
+                package_key=package_key,
             )
         except KeyError as key_error:
             self.logger.debug("Package '%s' was not contained in the CER", str(key_error))
             return PackageKeyConditionExpressionMapping(
-                edifact_format=self.edifact_format,
+                edifact_format=evaluatable_data.edifact_format,
                 package_expression=None,
                 package_key=package_key,
             )
